@@ -26,7 +26,8 @@ META = {
     "boundary floats (subnormal, max, overflow to inf, shortest-repr neighbours) in repr-style and alternative "
     "spellings are checked through the lexer, compile_expression, `{{ }}` rendering and a `{% set %}` round trip.  "
     "Strings: every string of length <= 3 (thorough 4) over 15 code-point classes in every spelling family (repr-like with "
-    "either quote, raw, raw line breaks, \\x / \\u / \\U / octal / \\N{} escapes, adjacent literals split at every position) "
+    "either quote, raw, raw line breaks, \\x / \\u / \\U / octal / \\N{} escapes, backslash-newline continuation at every "
+    "position with LF/CRLF/CR, adjacent literals split at every position) "
     "must evaluate to exactly that Python string under two (thorough three) newline_sequence settings.",
     "note": "Small scope only: numeric spellings up to 5/6 characters, string values up to 3/4 code points from 15 classes; "
     "integer literals beyond sys.get_int_max_str_digits() and Python's deprecated 'invalid escape sequence' spellings "
@@ -434,6 +435,14 @@ def string_spellings(s, thorough):
         yield ("esc-x", sp_escaped(s, '"', "x"), "exact")
     seps = [" ", ""] + (["\n", " \t "] if thorough else [])
     n = len(s)
+    # Python's backslash-newline continuation inside a literal ("abc\<LF>def" == "abcdef"), with each line-break form,
+    # at every position, alone and followed by an adjacent literal
+    for i in range(n + 1):
+        for lb in ("\n", "\r\n", "\r"):
+            for q in "'\"":
+                other = '"' if q == "'" else "'"
+                yield ("cont", sp_reprlike(s[:i], q)[:-1] + "\\" + lb + sp_reprlike(s[i:], q)[1:], "exact")
+                yield ("cont-concat", sp_reprlike(s[:i], q)[:-1] + "\\" + lb + q + " " + sp_reprlike(s[i:], other), "exact")
     for i in range(n + 1):
         for q1 in "'\"":
             for q2 in "'\"":
@@ -476,8 +485,10 @@ def string_shard(arg):
         for nlseq in (nl_seqs if full else nl_seqs[:2]):
             env = Environment(newline_sequence=nlseq)
             for family, sp, kind in string_spellings(s, thorough and full):
-                if nlseq != "\n" and family in ("concat2", "concat3"):
-                    continue  # joining adjacent literals is checked under the default newline_sequence only
+                if nlseq != "\n" and family in ("concat2", "concat3", "cont", "cont-concat"):
+                    # joining adjacent literals is checked under the default newline_sequence only; so is the
+                    # backslash-newline continuation (see ctx.assumptions)
+                    continue
                 p.evals += 1
                 expected = s if kind == "exact" else _nl.sub(nlseq, s)  # CALIBRATED: raw line breaks -> newline_sequence
                 # cross-check the spelling generator against Python itself wherever Python can read the spelling
@@ -500,7 +511,7 @@ def string_shard(arg):
                         "msg": f"newline_sequence={nlseq!r} spelling {ascii(sp)}: got {ascii(r[1:])}, expected {ascii(expected)}",
                         "script": SCRIPT_STR % (nlseq, sp, expected)})
                     continue
-                if family not in ("concat2", "concat3") or len(s) <= 1:
+                if family not in ("concat2", "concat3", "cont-concat") or len(s) <= 1:
                     r2 = render_text(env, sp)
                     if r2 != ("val", expected):
                         p.violation(f"C14/str-render/{family}/nl={_NLNAME[nlseq]}", {
@@ -544,6 +555,9 @@ def run(ctx: core.Ctx):
         "every one-number spelling over the extended alphabet goes through compile_expression (no stride)",
         "adjacent-literal spellings are evaluated under the default newline_sequence only; values of length 4 (thorough) "
         "get the quick tier's separator set and two newline sequences",
+        "backslash-newline continuation inside a literal (with LF, CRLF and CR in the source) is checked under the default "
+        "newline_sequence only: under a non-default one the raw line break is first rewritten to newline_sequence "
+        "(CALIBRATED rule above), so 'a\\<LF>b' evaluates to 'a' + backslash + newline_sequence + 'b' there",
         "backslash followed by a character that is not a Python escape (deprecated 'invalid escape sequence') is not enumerated",
         "integer literals longer than sys.get_int_max_str_digits() are out of scope",
     ]
